@@ -58,6 +58,24 @@ def c13_stages(tier):
     return [{"name": "native", "kind": "native", "pkg": "abi", "bin": "abi", "prop": "C13", "cases": cases, "core": True, "timeout": 1200}]
 
 
+def vfsx_stage(prop, cases, name="native", kind="native", **kw):
+    d = {"name": name, "kind": kind, "pkg": "vfsx", "bin": "vfsx", "prop": prop, "cases": cases, "core": kind == "native", "features": ("persist",)}
+    d.update(kw)
+    return d
+
+
+def c07_stages(tier):
+    return [vfsx_stage("C07", 4_000 if tier == "quick" else 150_000, timeout=2400, crash_is_violation=True)]
+
+
+def c14_stages(tier):
+    return [vfsx_stage("C14", 4_000 if tier == "quick" else 150_000, timeout=2400, crash_is_violation=True)]
+
+
+def c19_stages(tier):
+    return [vfsx_stage("C19", 1_600 if tier == "quick" else 60_000, timeout=2400, crash_is_violation=True)]
+
+
 def c12_stages(tier):
     if tier == "quick":
         return [wire_stage("C12", 200_000), wire_stage("C12", 160, name="miri", kind="miri", shards=16, timeout=600)]
@@ -130,6 +148,54 @@ PROPS = {
         "rule": "one evaluation per (struct, field), per struct size, per constant, per opcode number (2^32) and per random stat conversion; distinct = "
                 "(struct, field) / constant names / first conversions; nothing is trivial.",
         "assumptions": ["/usr/include/linux/fuse.h is protocol 7.38", "FUSE_HAS_RESEND = 1<<39 and FUSE_NOTIFY_RESEND = 7 (uapi 7.40)"],
+    },
+    "C07": {
+        "level": "exploration",
+        "stages": c07_stages,
+        "floor": 1000,
+        "technique": "runtime monitoring: numbered logging backends mounted in a real Vfs behind a real Server; per-request routing oracle from a client-side "
+                     "model of slots, mount points and pseudo directories over random mount/over-mount/umount/request histories (incl. index wrap-around)",
+        "level_text": "Histories of mount / over-mount / umount at paths /, /a, /a/b, ... (with bursts of 100-300 cycles to wrap the 8-bit index) interleaved with "
+                      "42 request kinds on handed-out, stale, fabricated, pseudo and root inode numbers. After every request the call logs of all backends must "
+                      "show exactly one call on the owning backend with its own inode number (none for vacant slots, pseudo inodes, cross-mount link/rename, "
+                      "operations the Vfs does not forward); replies must carry the same number for a name in lookup/getattr/readdir/readdirplus and the "
+                      "mount root exactly at the mount path.",
+        "level_note": "Backends are self-consistent by construction (NumFs). lseek/getlk/setlk/ioctl/bmap/poll are not forwarded by the Vfs type at all (documented "
+                      "limitation, recorded as unserved_by_vfs). Slot indices are learnt from mount()'s return value and checked against the model's vacancy.",
+        "rule": "case = one history (20-120 steps); evaluations = client requests; distinct = (request kind, routing class backend/pseudo/vacant, mapping class, "
+                "name class); every request is non-trivial.",
+        "assumptions": ["in-process client over the /dev/fuse transport stand-in"],
+    },
+    "C14": {
+        "level": "exploration",
+        "stages": c14_stages,
+        "floor": 1000,
+        "technique": "runtime monitoring: id-translation oracle (independent 3-line remap) on backend call logs and reply owner ids over mount histories with "
+                     "global / per-mount / overlapping mappings and slot reuse",
+        "level_text": "Same engine as C07 with a global mapping and per-mount mappings drawn from disjoint, overlapping and full-range candidates; caller ids and "
+                      "setattr owner ids seen by the backend must equal ext->int under the effective mapping of the routed mount (own mapping if given, else "
+                      "global), reply owner ids (lookup, getattr, setattr, create, mkdir, mknod, symlink, link, readdirplus, mount roots via lookup and via "
+                      "readdirplus) must equal int->ext, ids at and around the range edges included.",
+        "level_note": "The effective mapping of a request on the root inode is taken to be that of the filesystem mounted at / (the mount that serves it).",
+        "rule": "case = one history; evaluations = client requests; distinct = (request kind, routing class, mapping class none/global/per-mount, name class).",
+        "assumptions": ["ids drawn from 19 values around the edges of the candidate ranges"],
+    },
+    "C19": {
+        "level": "exploration",
+        "stages": c19_stages,
+        "floor": 500,
+        "technique": "runtime monitoring: differential twin (live Vfs vs state saved and restored into a fresh Vfs with twin backends) after every prefix of "
+                     "random mount/umount/INIT histories, comparing client-visible transcripts, backend call logs and the behaviour of the next operation",
+        "level_text": "After every prefix of a history the live Vfs is saved (current format, or the previous format through a cfg-guarded hook), restored into a "
+                      "fresh Vfs (Vfs::new(VfsOptions::default()) or same options), twin backends are re-attached at the recorded indices, and an observation "
+                      "script (path walks of all mount paths, getattr/lookup/setattr/open/opendir on pre-save inode numbers with mapped ids, readdirplus, a "
+                      "second INIT) must produce identical transcripts and identical backend-side call logs; then the next history step is applied to both "
+                      "and must return the same index / result and the same transcript again.",
+        "level_note": "Pseudo-directory timestamps (stamped with 'now') are excluded from the comparison. Version-1 snapshots are only produced for histories "
+                      "without per-mount mappings (the documented default for what that format cannot carry).",
+        "rule": "case = one history (2-9 steps, optionally after a 10-260 cycle allocator burst); evaluations = save/restore points; distinct = (format, fresh-Vfs "
+                "kind, initialised?, global mapping?, number of mounts, step kind).",
+        "assumptions": ["twin NumFs backends are deterministic functions of their id"],
     },
     "C12": {
         "level": "exploration",
